@@ -322,8 +322,9 @@ class Check:
                 self.known_hits[k["id"]] += 1
                 return False
         self.violations += 1
-        os.makedirs(os.path.join(VERIF, "replays"), exist_ok=True)
-        path = os.path.join(VERIF, "replays", "%s-%s-seed%d-%d.json" % (self.pid, self.tier, self.seed, self.violations))
+        rdir = os.path.join(VERIF, "replays") if os.path.abspath(REPO) == "/repo" else "/var/tmp/verif-scratch/replays-other"
+        os.makedirs(rdir, exist_ok=True)
+        path = os.path.join(rdir, "%s-%s-seed%d-%d.json" % (self.pid, self.tier, self.seed, self.violations))
         with open(path, "w") as f:
             json.dump(dict(property=self.pid, signature=signature, what=what, seed=self.seed, tier=self.tier,
                            replay=replay), f, indent=1, default=str)
